@@ -231,6 +231,27 @@ def run(ck: Check):
                 ck.disagree("in training mode the sampled gate tree differs between output positions (identical windows give different outputs)",
                             {"param": par, "mode": mode, "max_spread_over_positions": spread},
                             signature={"what": "position-dependent-sampling", "param": par, "gumbel": mode.startswith("gumbel")})
+    # the same on LARGE output grids (a forward that works through the positions in blocks must not sample a tree per block): constant
+    # images with 1 296 and 4 356 output positions, raw parametrisation (the Walsh Gumbel modes are the recorded finding F32)
+    for (side, mode) in ((37, "gumbel_soft"), (37, "gumbel_hard"), (67, "gumbel_soft"), (67, "gumbel_hard"), (67, "soft")):
+        if ck.tier == "quick" and side == 67 and mode == "gumbel_hard":
+            continue
+        torch.manual_seed(ck.seed + 23 + side)
+        big = _LC2(in_dim=side, device="cpu", channels=1, num_kernels=2, tree_depth=2, receptive_field_size=2,
+                   parametrization="raw", forward_sampling=mode, temperature=1.0, weight_init="random")
+        big.train()
+        xb = torch.full((2, 1, side, side), 0.75 if mode != "gumbel_hard" else 1.0)
+        with torch.no_grad():
+            yb = big(xb)
+        spread_b = float((yb.amax((2, 3)) - yb.amin((2, 3))).max())
+        case_b = {"kind": "constant-image-large", "param": "raw", "mode": mode, "side": side, "positions": int(yb.shape[2] * yb.shape[3])}
+        ck.case(case_b, nontrivial=True, kind="constant-image-large")
+        if spread_b > 1e-6:
+            pos = (yb[0, 0] - yb[0, 0, 0, 0]).abs().gt(1e-6).nonzero()
+            ck.disagree("on a large constant image the windows of one kernel give different training outputs: the sampled tree depends on the position",
+                        dict(case_b, spread=spread_b, first_differing_position=pos[0].tolist() if len(pos) else None),
+                        expected=0.0, observed=spread_b,
+                        signature={"what": "position-dependent-sampling", "param": "raw", "gumbel": mode.startswith("gumbel"), "large": True})
     # a very long strip: coordinates beyond 2^15 (index tables must not be held in a narrow integer type)
     from torchlogix.layers import LogicConv2d
     torch.manual_seed(ck.seed + 5)
